@@ -2649,7 +2649,9 @@ func (c *streamableClientConn) processResumedStream(ctx context.Context, request
 
 			// Malformed events are hard errors that indicate corrupted data or protocol
 			// violations. These should fail the connection permanently.
-			if errors.Is(err, errMalformedEvent) {
+			// (A line that is malformed only because the body ended in the middle
+			// of it is an interruption like any other, not a protocol violation.)
+			if errors.Is(err, errMalformedEvent) && !body.truncated() {
 				c.fail(fmt.Errorf("%s: %v", requestSummary, err))
 				return "", 0, true
 			}
